@@ -3,12 +3,15 @@ package c12
 import (
 	"context"
 	"fmt"
+	"os"
 	"reflect"
 	"sort"
 	"strings"
 	"time"
 
 	"go.opentelemetry.io/collector/confmap"
+	"go.opentelemetry.io/collector/confmap/provider/envprovider"
+	"go.opentelemetry.io/collector/confmap/provider/yamlprovider"
 	"go.opentelemetry.io/collector/verifharness/vt"
 )
 
@@ -29,6 +32,8 @@ type session struct {
 	srcs    []map[string]any
 	res     *confmap.Resolver
 	handles []*handle
+	// extraEnv: variables additionally set (metamorphic variant: unset-with-default -> set to the default)
+	extraEnv map[string]string
 }
 
 func (ss *session) track(uri string, w confmap.WatcherFunc) confmap.RetrievedOption {
@@ -59,6 +64,8 @@ func newSession(s *XScript) (*session, error) {
 			return confmap.NewRetrievedFromYAML([]byte(v), ss.track(uri, w))
 		}))
 	}
+	// the REAL providers, anchored files confmap/provider/{envprovider,yamlprovider}/provider.go
+	facs = append(facs, envprovider.NewFactory(), yamlprovider.NewFactory())
 	uris := []string{"src:0"}
 	if len(ss.srcs) > 1 {
 		uris = append(uris, "src:1")
@@ -66,6 +73,9 @@ func newSession(s *XScript) (*session, error) {
 	def := ""
 	if s.Default {
 		def = defaultScheme
+		if s.DefEnv {
+			def = "env"
+		}
 	}
 	var err error
 	ss.res, err = confmap.NewResolver(confmap.ResolverSettings{URIs: uris, DefaultScheme: def, ProviderFactories: facs})
@@ -99,7 +109,36 @@ type view struct {
 	panic any
 }
 
+// applyEnv makes the process environment what the current table says: rows
+// "env:NAME" are set to their rendered text, EnvUnset names are unset.  extra
+// (metamorphic variant) sets further variables.
+func (ss *session) applyEnv(extra map[string]string) {
+	for _, n := range ss.s.EnvUnset {
+		_ = os.Unsetenv(n)
+	}
+	for k, v := range ss.table {
+		if strings.HasPrefix(k, "env:") {
+			_ = os.Setenv(strings.TrimPrefix(k, "env:"), v)
+		}
+	}
+	for n, v := range extra {
+		_ = os.Setenv(n, v)
+	}
+}
+
+func (ss *session) clearEnv() {
+	for _, n := range ss.s.EnvUnset {
+		_ = os.Unsetenv(n)
+	}
+	for k := range ss.table {
+		if strings.HasPrefix(k, "env:") {
+			_ = os.Unsetenv(strings.TrimPrefix(k, "env:"))
+		}
+	}
+}
+
 func (ss *session) resolve() (v views) {
+	ss.applyEnv(ss.extraEnv)
 	v.o.panicV, v.o.stack = vt.Recover(func() {
 		v.o.conf, v.o.err = ss.res.Resolve(context.Background())
 		if v.o.err == nil {
@@ -205,6 +244,10 @@ func (ss *session) advance(r Round) *vt.Finding {
 
 func (ss *session) shutdown() {
 	_, _ = vt.Recover(func() { _ = ss.res.Shutdown(context.Background()) })
+	ss.clearEnv()
+	for n := range ss.extraEnv {
+		_ = os.Unsetenv(n)
+	}
 }
 
 // expectAll evaluates the fields against table; discard/danger are left in w.
@@ -295,6 +338,11 @@ func runX(s XScript) (nontrivial bool, key string, f *vt.Finding) {
 			if !goOn {
 				return // a failed Resolve ends the history
 			}
+			if r == 0 {
+				if f = metamorphicEnv(&s, st.w, st.exps, v); f != nil {
+					return
+				}
+			}
 			if r > 0 {
 				cX.Class(fmt.Sprintf("history:round-%d-checked", r))
 				nontrivial = true
@@ -302,6 +350,52 @@ func runX(s XScript) (nontrivial bool, key string, f *vt.Finding) {
 		}
 	})
 	return nontrivial, key, f
+}
+
+// metamorphicEnv: RFC / env provider doc -- "A default value for unset variable can be provided after
+// :- suffix": resolving with NAME unset and default text T must equal resolving with NAME set to T, in
+// every view (typed whole values, original text in strings).  Independent of the reference interpreter.
+func metamorphicEnv(s *XScript, w *world, exps []expect, base views) *vt.Finding {
+	for _, e := range exps {
+		if e.res.TEx != "" || e.res.SEx != "" || e.res.LSEx != "" || e.res.ErrMay || e.res.UErrMay {
+			// a context the interpreter does not follow (pasted text, unexpanded rest after an escape, …) may
+			// mention the variable in a way that is not visible here
+			return nil
+		}
+	}
+	extra := map[string]string{}
+	for n, d := range w.envDef {
+		if d != "\x00" {
+			extra[n] = d
+		}
+	}
+	if len(extra) == 0 {
+		return nil
+	}
+	cX.Class("env:metamorphic-default-vs-set")
+	s2 := *s
+	s2.Rounds = nil
+	ss, err := newSession(&s2)
+	if err != nil {
+		return vt.Failf("expand/unexpected-error", "NewResolver: %v", err)
+	}
+	ss.extraEnv = extra
+	defer ss.shutdown()
+	v := ss.resolve()
+	desc := func() string { return fmt.Sprintf("variables set to their defaults: %q; %v", extra, s.describe()) }
+	if v.o.panicV != nil || (v.o.err != nil) != (base.o.err != nil) {
+		return vt.Failf("env-default/differs-from-set", "unset+default resolved with err=%v, set-to-default with err=%v panic=%v: %s", base.o.err, v.o.err, v.o.panicV, desc())
+	}
+	if d := diffTree(base.o.tsm, v.o.tsm, ""); d != "" {
+		return vt.Failf("env-default/differs-from-set", "ToStringMap differs between NAME unset with default T (want) and NAME=T (got): %s: %s", d, desc())
+	}
+	if base.direct.panic == nil && base.direct.err == nil && (v.direct.err != nil || !reflect.DeepEqual(base.direct.tgt, v.direct.tgt)) {
+		return vt.Failf("env-default/differs-from-set", "Unmarshal differs between NAME unset with default T and NAME=T: %#v vs %#v (err %v): %s", base.direct.tgt, v.direct.tgt, v.direct.err, desc())
+	}
+	if base.direct.err != nil && v.direct.err == nil {
+		return vt.Failf("env-default/differs-from-set", "Unmarshal fails with NAME unset and default T (%v) but not with NAME=T: %s", base.direct.err, desc())
+	}
+	return nil
 }
 
 // judgeX compares one round.  goOn is false when the history must stop (Resolve failed, as expected).
